@@ -212,6 +212,39 @@ fn check() {
             }
         }
     }
+    // ---- hand-over from the head to the framed tunnel: an HTTP CONNECT head (Proxy-Protocol: udp, inline channel)
+    //      followed by UDP-over-stream frames through the real h11c_handshake + on_connect (listener side), and an
+    //      upstream's 200 reply followed by frames through the real h11c_connect (connector side); whatever the
+    //      segmentation, the tunnel must deliver exactly the frames that follow the head
+    let mut handover_cases = 0u64;
+    {
+        let f1 = rpfm(0, &[1, 6, 1, 2, 3, 4, 0, 53], b"first-frame");
+        let f2 = rpfm(0, &[1, 6, 5, 6, 7, 8, 1, 187], b"2nd");
+        for side in ["listener", "connector"] {
+            let head: &[u8] = if side == "listener" { b"CONNECT 1.2.3.4:53 HTTP/1.1\r\nProxy-Protocol: udp\r\n\r\n" } else { b"HTTP/1.1 200 OK\r\nSession-Id: 7\r\n\r\n" };
+            let mut data = head.to_vec();
+            data.extend(&f1);
+            data.extend(&f2);
+            let base = handover(side, ChunkStream::new(vec![data.clone()]));
+            let want = Ok(vec![format!("{}:{}", "1.2.3.4:53", hex(b"first-frame")), format!("{}:{}", "5.6.7.8:443", hex(b"2nd"))]);
+            if base != want {
+                chk.violation("handover", &format!("{side}:baseline"), format!("{side}: head + 2 frames in one segment: tunnel delivered {:?}, expected {:?}", base, want), json!({"side": side, "bytes": hex(&data)}));
+                continue;
+            }
+            let cut_sets = sparse_cut_sets(data.len());
+            handover_cases += cut_sets.len() as u64;
+            par_for(cut_sets.len(), |i| {
+                decodes.fetch_add(1, Ordering::Relaxed);
+                let got = handover(side, ChunkStream::from_cuts(&data, &cut_sets[i]));
+                outcomes.add(&(side, got.is_ok()));
+                if got != base {
+                    let class = if got.is_err() { "tunnel-broken" } else { "frames-lost-or-changed" };
+                    chk.violation("handover", &format!("{side}:{class}"), format!("{side}: cuts {:?} (head is {} bytes): tunnel delivered {:?}, one segment delivers {:?}", cut_sets[i], head.len(), got, base), json!({"side": side, "bytes": hex(&data), "cuts": cut_sets[i]}));
+                }
+            });
+        }
+    }
+
     let n = decodes.load(Ordering::Relaxed);
     if n < 10_000 || outcomes.len() < 20 {
         machinery(format!("vacuous: decodes={n} outcomes={}", outcomes.len()));
@@ -220,8 +253,8 @@ fn check() {
         "exhaustive": true,
         "states": outcomes.len(), "transitions": n, "traces_validated_against_impl": n,
         "evaluations": n, "distinct_nontrivial": outcomes.len(),
-        "rule": format!("{} valid messages (HTTP request/response heads, SOCKS4/4a/5 negotiations+requests, replies, 1-3 RPFM frames) x trailing payload in {{none, 1 byte, 5 bytes}}; all 2^(n-1) segmentations when n <= {}, otherwise all 1- and 2-cut sets + byte-at-a-time; EOF after every proper prefix (one segment and byte-wise). distinct = distinct (parse result, remainder) outcomes", msgs.len(), exhaustive_limit),
-        "messages": msgs.len(), "segmentation_cases": seg_cases, "truncation_points": trunc_cases,
+        "rule": format!("{} valid messages (HTTP request/response heads, SOCKS4/4a/5 negotiations+requests, replies, 1-3 RPFM frames) x trailing payload in {{none, 1 byte, 5 bytes}}; all 2^(n-1) segmentations when n <= {}, otherwise all 1- and 2-cut sets + byte-at-a-time; EOF after every proper prefix (one segment and byte-wise). hand-over: CONNECT head (udp, inline) + 2 frames through the real h11c_handshake/on_connect and 200 reply + 2 frames through the real h11c_connect under all 1- and 2-cut sets + byte-at-a-time, frames read from the tunnel. distinct = distinct (parse result, remainder) outcomes", msgs.len(), exhaustive_limit),
+        "messages": msgs.len(), "segmentation_cases": seg_cases, "handover_segmentations": handover_cases, "truncation_points": trunc_cases,
         "samples": samples,
     });
     chk.finish(
@@ -232,6 +265,50 @@ fn check() {
             "messages longer than the exhaustive limit get all single cuts, all pairs of cuts and byte-at-a-time, not all subsets".into(),
         ],
     );
+}
+
+/// Runs the real head parser and hands the connection over to the framed tunnel; returns the frames the tunnel
+/// delivers ("addr:body-hex"), or the error that ended it.
+fn handover(side: &str, stream: ChunkStream) -> Result<Vec<String>, String> {
+    use crate::common::h11c::{h11c_connect, h11c_handshake};
+    use crate::context::{make_buffered_stream, ContextRefOps, Feature, GlobalState as Contexts, TargetAddress};
+    let listener = side == "listener";
+    catch(|| {
+        let fut = async move {
+            let contexts: std::sync::Arc<Contexts> = Default::default();
+            let ctx = contexts.create_context("l".to_string(), "127.0.0.1:1".parse().unwrap()).await;
+            let dummy = |id| frames_from_stream(id, ChunkStream::new(vec![]));
+            if listener {
+                ctx.write().await.set_client_stream(make_buffered_stream(stream));
+                let (tx, mut rx) = tokio::sync::mpsc::channel(4);
+                h11c_handshake(ctx.clone(), tx, |_, _| async { easy_error::bail!("not supported") }).await.map_err(|e| format!("handshake: {e}"))?;
+                rx.try_recv().map_err(|_| "handshake did not queue the request".to_string())?;
+                ctx.on_connect().await;
+                ctx.write().await.set_server_frames(dummy(0));
+            } else {
+                ctx.write().await.set_target(TargetAddress::DomainPort("t".into(), 53)).set_feature(Feature::UdpForward);
+                let a: std::net::SocketAddr = "127.0.0.1:2".parse().unwrap();
+                h11c_connect(make_buffered_stream(stream), ctx.clone(), a, a, "inline", |id| async move { dummy(id) }).await.map_err(|e| format!("connect: {e}"))?;
+                ctx.write().await.set_client_frames(dummy(0));
+            }
+            let (client, server) = ctx.write().await.take_frames().ok_or_else(|| "no frame channel on the connection".to_string())?;
+            let (mut reader, _w) = if listener { client } else { server };
+            let mut out = vec![];
+            loop {
+                match reader.read().await {
+                    Ok(Some(f)) => out.push(format!("{}:{}", f.addr.as_ref().map(|a| a.to_string()).unwrap_or_default(), hex(&f.body))),
+                    Ok(None) => break Ok(out),
+                    Err(e) => break Err(format!("{} after {:?}", e, out)),
+                }
+                if out.len() > 8 {
+                    break Err("more than 8 frames".to_string());
+                }
+            }
+        };
+        run_ready(fut, 200_000)
+    })
+    .and_then(|o| o.ok_or_else(|| "did not terminate".to_string()))
+    .unwrap_or_else(Err)
 }
 
 /// longest prefix of `data` that consists of whole RPFM frames
